@@ -37,7 +37,7 @@ m = {
                  "serves_properties": [c["property_id"] for c in checks],
                  "kind_free_text": "Coq 8.16.1 executable Gallina model + theorems (Props/Cnn.v); model tied to /repo on every run by a differential correspondence check (Go harness vs extracted OCaml model) and by tables regenerated from the Go AST"}],
     "checks": checks,
-    "notes": "See DESIGN.md. known_findings.json lists 12 repaired defects (status fixed; they suppress nothing) and one recorded finding (F12, status known, C06: one specific input for which the check prints a KNOWN-FINDING line). seeded/ holds the property-breaking changes used to test the checks (never applied in /repo).",
+    "notes": "See DESIGN.md. known_findings.json lists 12 repaired defects (status fixed; they suppress nothing) and one recorded finding (F12, status known, C06: one specific input for which the check prints a KNOWN-FINDING line). seeded/ holds the property-breaking changes used to test the checks, benign/ the behaviour-preserving rewrites used to test them for false alarms (neither is ever committed in /repo).",
     "not_applicable": na,
 }
 json.dump(m, open(os.path.join(ROOT, "MANIFEST.json"), "w"), indent=1)
